@@ -297,6 +297,7 @@ func (g gate) Run(t *task.Task) error {
 	x := g.x
 	x.mu.Lock()
 	x.seq++
+	x.lastAct = time.Now()
 	x.enters[t.Name]++
 	x.events = append(x.events, "enter:"+t.Name)
 	if x.cancelRet {
@@ -361,6 +362,8 @@ type execution struct {
 	ticks  map[*scheduler.ExecutionGraph]int
 
 	ticksTotal, lastChange int
+	bySilence              int
+	lastAct                time.Time // last scheduler pass or runner entry (for the silence fallback only)
 	seq                    int
 	parked                 map[string]*parked
 	enters                 map[string]int
@@ -489,6 +492,7 @@ func init() {
 				x.mu.Lock()
 				x.ticks[g]++
 				x.ticksTotal++
+				x.lastAct = time.Now()
 				x.cond.Broadcast()
 				x.mu.Unlock()
 			}
@@ -607,12 +611,14 @@ type execResult struct {
 	options     []int
 	taken       []int
 	maxInFlight int
+	bySilence   int
 	rejected    bool
 	cancelled   bool
 }
 
 var pauseFor = 100 * time.Microsecond
 var quiesceWatchdog = 10 * time.Second
+var silenceFor = 250 * time.Millisecond
 
 func runExecution(spec *graphSpec, strat strategy, work string) (res execResult) {
 	x := &execution{spec: spec, strat: strat, all: map[string]*mstage{}, graphs: map[*scheduler.ExecutionGraph]*mgraph{},
@@ -696,6 +702,13 @@ func runExecution(spec *graphSpec, strat strategy, work string) (res execResult)
 				}
 			}
 			if have && x.activeTicked(2) {
+				break
+			}
+			if have && len(x.parked) > 0 && time.Since(x.lastAct) > silenceFor {
+				// every start the model predicts has happened and the scheduling loops are silent: a loop that has
+				// nothing left to launch may legitimately stop making passes while its stages run. Exploration goes on
+				// (a stage that starts later is still seen by the monitors when it enters the runner).
+				x.bySilence++
 				break
 			}
 			if time.Now().After(deadline) {
@@ -867,6 +880,7 @@ func runExecution(spec *graphSpec, strat strategy, work string) (res execResult)
 	res.events = x.events
 	res.options, res.taken = x.options, x.taken
 	res.maxInFlight = x.maxInFlight
+	res.bySilence = x.bySilence
 	if res.suspect != "" {
 		res.viols = x.viols
 		return
@@ -1166,6 +1180,9 @@ func runOne(a args, st *schedStats, spec *graphSpec, strat strategy, key string)
 	}
 	if len(spec.Stages) > 1 {
 		out.Nontrivial("C03", ek)
+	}
+	if res.bySilence > 0 {
+		out.Count("quiescent_points_decided_by_silence", int64(res.bySilence))
 	}
 	if res.maxInFlight >= 2 {
 		out.Nontrivial("C04", ek)
